@@ -30,7 +30,7 @@ fn install_panic_hook() {
 }
 
 static ANNOUNCE: std::sync::atomic::AtomicBool = std::sync::atomic::AtomicBool::new(false);
-const OBS_PROPS: &[&str] = &["C01", "C02", "C03", "C16", "C19"];
+const OBS_PROPS: &[&str] = &["C01", "C02", "C03", "C04", "C16", "C19"];
 const VEC_PROPS: &[&str] = &["C05", "C06", "C07", "C08", "C09", "C10", "C11", "C12", "C13", "C14", "C15", "C17", "C20"];
 
 struct Args {
